@@ -507,7 +507,7 @@ def simplify_actions(h, fails):
 
 def tie_types(ctx: Ctx):
     rng = ctx.rng
-    n_hist = ctx.scale(70, 2500)
+    n_hist = ctx.scale(40, 2500)
     hists = [gen_history(rng, rng.randrange(3, 26)) for _ in range(n_hist)]
     hists += [lattice_history(rng, ws) for ws in ([[1, 2, 3], [1, 8, 65], [2, 3, 8]] * ctx.scale(1, 12))]
     model = model_hist(hists)
